@@ -37,12 +37,8 @@ def tstats(xm, ym, tail, paired):
             # (0/0); in floating point mean and variance of such a row are rounding noise, so decide it exactly
             allsame = (np.ptp(np.hstack((xm, ym)), axis=1) == 0)
             t = np.where(allsame, np.nan, t)
-            # both groups constant but at different values: the pooled variance is exactly 0 and the statistic is +-inf by the
-            # formula, while bct's convention is 'denom == 0 -> 0'. The property does not settle this corner; such runs are
-            # discarded and counted (marker value: a statistic exactly AT the threshold cannot occur otherwise)
-            sep = (np.ptp(xm, axis=1) == 0) & (np.ptp(ym, axis=1) == 0) & ~allsame
-            if sep.any():
-                UNDECIDABLE[0] += 1
+            # (both groups constant at different values: pooled variance 0 or a rounding residue, statistic +-inf or ~1e15 -
+            # perfect separation exceeds every threshold in both cases; bct used to return 0 here, repaired in 9f25e08)
     if tail == 'both':
         t = np.abs(t)
     elif tail == 'left':
@@ -292,7 +288,7 @@ def execute(case, mode, fn=None, label='nbs_bct'):
         if not near(t, p['thresh']) and not UNDECIDABLE[0]:
             any_supra = bool(np.any(t[np.isfinite(t)] > p['thresh']) or np.any(t == np.inf))
             if any_supra and 'Unsuitable threshold' in str(exc):
-                facts = [('adj', 'call rejected with "Unsuitable threshold" although %d connection(s) exceed the threshold' % int(np.sum(t[np.isfinite(t)] > p['thresh'])))]
+                facts = [('adj', 'call rejected with "Unsuitable threshold" although %d connection(s) exceed the threshold' % int(np.sum(t[np.isfinite(t)] > p['thresh']) + np.sum(t == np.inf)))]
     if facts:
         res['outcome'] = 'violation'
         res['vclass'], res['msg'] = facts[0]
